@@ -97,6 +97,19 @@ fn bad(p: &mut Pair, x: &[u8], kind: &'static str, rep: &mut Report) {
             rep.violation(&format!("bad-pec-changed-eid:{}", cls), || format!("{} on {} (wrong PEC) changed the EIDs from {:?} to {:?}", op.kind(), hex(x), before, obs.eids), case);
         }
     }
+    if rep.want_sample() && f.hdr_ok && x.len() < 40 {
+        let d = decode(p.a, x);
+        rep.sample(|| {
+            J::obj(vec![
+                ("input_with_wrong_pec", J::s(hex(x))),
+                ("corruption", J::s(kind)),
+                ("pec_byte", J::s(format!("{:#04x}", x[x.len() - 1]))),
+                ("reference_crc8", J::s(format!("{:#04x}", crc8(&x[..x.len() - 1])))),
+                ("decode_packet", J::s(d.brief())),
+                ("eids_before_after", J::s(format!("{:?} -> {:?}", before, eids(p.a)))),
+            ])
+        });
+    }
     if f.hdr_ok {
         rep.nontrivial(hash_bytes(2, x));
         rep.class(&format!("bad-pec:{}", cls));
